@@ -281,7 +281,22 @@ fn texts(tier: Tier) -> Vec<String> {
         out.extend(next.iter().cloned());
         cur = next;
     }
-    for s in ["!native", "text ending in ]", "[==[ starts like a long bracket", "[[ license", "]] closes", "]=] closes", "a\nb", "a\r\nb", "line1\nline2\n", "--", "--[[", "a]]b\n]=]c", "é€😀", "\u{feff}", "tab\there"] {
+    // longer texts over the bracket alphabet alone: closing brackets that overlap (`]]=]`), with a line feed so that the long form is used
+    let brackets = ["[", "]", "=", "\n"];
+    let mut cur: Vec<String> = vec![String::new()];
+    for len in 1..=tier.pick(5, 7) {
+        let mut next = Vec::new();
+        for p in &cur {
+            for a in brackets {
+                next.push(format!("{}{}", p, a));
+            }
+        }
+        if len > tier.pick(3, 4) {
+            out.extend(next.iter().cloned());
+        }
+        cur = next;
+    }
+    for s in ["!native", "text ending in ]", "[==[ starts like a long bracket", "[[ license", "]] closes", "]=] closes", "a\nb", "a\r\nb", "line1\nline2\n", "--", "--[[", "a]]b\n]=]c", "]]=]", "]=]==]", "]]]", "]=]]", "a]]=]b", "]==]=]]", "]]=]==]===]", "]]=]\nb", "]=]==]\nb", "a\n]]=]", "[[a]]=]\nb", "]]=]==]===]\r\nb", "]]]=]]\nb", "é€😀", "\u{feff}", "tab\there"] {
         out.push(s.to_owned());
     }
     out
@@ -429,7 +444,7 @@ pub fn run(tier: Tier) -> Report {
     report.rule = "(a) the C03 layouts (templates covering every node kind x one trivia insertion from a 15-element menu at every token gap, pairs in \
         thorough, despaced layouts, literal spellings) through remove_spaces, remove_comments with 6 `except` sets, and both orders of the two rules; \
         retain_lines output re-lexed by luaref: code-token texts identical, comment list == input comments filtered by the `except` regexes (regex \
-        crate), unchanged for remove_spaces alone. (b) append_text_comment for ALL texts of length <= 3 (4) over {[ ] = - LF CR a space} plus special \
+        crate), unchanged for remove_spaces alone. (b) append_text_comment for ALL texts of length <= 3 (4) over {[ ] = - LF CR a space}, ALL texts of length <= 5 (7) over {[ ] = LF}, plus special \
         texts x location {start,end} x 11 files (empty, no final newline, ending in a line comment, only a comment, long strings) x 3 generators; output \
         re-lexed under Luau and Lua 5.1 comment rules: code tokens unchanged, text contained in comment material, `end` keeps every line, `start` \
         shifts uniformly. non-trivial = outputs that differ from the input"
